@@ -22,7 +22,9 @@ import (
 	"testing/synctest"
 	"time"
 
+	"github.com/slackhq/nebula"
 	"github.com/slackhq/nebula/cert"
+	"github.com/slackhq/nebula/header"
 	"go.yaml.in/yaml/v3"
 )
 
@@ -73,8 +75,9 @@ func TestVerif_C49(t *testing.T) {
 			routines := 1 + hi%2
 			bubblePanic := vBubble(t, func(t *testing.T) {
 				n := vNewNet(t)
-				lh := n.AddNode(cert.Version2, "L", "10.128.0.1/24", m{"lighthouse": m{"am_lighthouse": true, "interval": 1}})
-				lhm := m{"lighthouse": m{"hosts": []string{"10.128.0.1"}, "interval": 1},
+				punchy := m{"punch": true, "respond": false, "delay": "1s"}
+				lh := n.AddNode(cert.Version2, "L", "10.128.0.1/24", m{"lighthouse": m{"am_lighthouse": true, "interval": 1}, "punchy": punchy})
+				lhm := m{"lighthouse": m{"hosts": []string{"10.128.0.1"}, "interval": 1}, "punchy": punchy,
 					"static_host_map": m{"10.128.0.1": []string{lh.UDP.String()}}}
 				a := n.AddNode(cert.Version2, "A", "10.128.0.2/24", lhm)
 				b := n.AddNode(cert.Version2, "B", "10.128.0.3/24", lhm)
@@ -128,6 +131,9 @@ func TestVerif_C49(t *testing.T) {
 						synctest.Wait()
 					case "Stop":
 						t0 := time.Now()
+						// the context is cancelled while the node's goroutines are still parked behind the full transmit
+						// queue (Stop cancels first); the queue is emptied again only once Stop itself blocks
+						tn.ReleaseNoWait()
 						tn.Ctrl.Stop()
 						if d := time.Since(t0); d > stopTook {
 							stopTook = d
@@ -158,6 +164,35 @@ func TestVerif_C49(t *testing.T) {
 					case "advance":
 						n.Advance(5 * time.Second)
 						n.PumpOnce()
+					case "punchburst":
+						// a lighthouse punch notification with more addresses than the punch queue holds, while the node's
+						// transmit queue is not emptied: the punch worker falls behind and the timer callbacks wait for room
+						if tn == lh || !started[tn.Name] {
+							res.Hit("punchburst:n/a")
+							continue
+						}
+						other := a
+						if tn == a {
+							other = b
+						}
+						var addrs []netip.AddrPort
+						for k := 0; k < 129; k++ {
+							addrs = append(addrs, netip.AddrPortFrom(netip.AddrFrom4([4]byte{192, 0, 2, byte(1 + k%250)}), uint16(20000+k)))
+						}
+						payload := nebula.VerifLighthouseMsg(int32(nebula.NebulaMeta_HostPunchNotification), other.Vpn[0].Addr(), addrs, nil, false)
+						tn.Hold()
+						if lh.Ctrl.VerifSendOnTunnel(header.LightHouse, 0, tn.Vpn[0].Addr(), payload) {
+							synctest.Wait()
+							for _, d := range lh.TakeUDP() {
+								if d.To == tn.UDP {
+									n.Deliver(d)
+								}
+							}
+							n.Advance(2 * time.Second)
+							res.Hit("punchburst:sent")
+						} else {
+							res.Hit("punchburst:no-tunnel")
+						}
 					case "lighthouse":
 						n.Advance(2 * time.Second)
 						n.PumpOnce()
